@@ -213,6 +213,8 @@ pub struct Ctx {
     pub rng: Rng,
     pub opts: BTreeMap<String, String>,
     out: Option<BufWriter<File>>,
+    /// no log file: records go to stdout (used under Miri, where file I/O needs isolation off)
+    to_stdout: bool,
     pub evals: u64,
     cov: BTreeMap<String, BTreeMap<String, u64>>,
     keys: HashSet<u64>,
@@ -267,6 +269,7 @@ impl Ctx {
             nshards,
             rng: Rng::new(seed, (shard as u64) << 32 | fnv(monitor.as_bytes()) & 0xffff_ffff),
             opts,
+            to_stdout: out.is_none(),
             out,
             evals: 0,
             cov: BTreeMap::new(),
@@ -302,6 +305,8 @@ impl Ctx {
     fn write(&mut self, v: &Value) {
         if let Some(o) = self.out.as_mut() {
             let _ = writeln!(o, "{}", v);
+        } else if self.to_stdout {
+            println!("{}", v);
         }
     }
 
@@ -408,9 +413,6 @@ impl Ctx {
         self.write(&krec);
         self.write(&sum);
         self.flush();
-        if self.out.is_none() {
-            println!("{}", sum);
-        }
         if self.viols.is_empty() {
             0
         } else {
